@@ -347,12 +347,18 @@ func (IdGen) Extra(tier string, seed int64) []orch.Case {
 		default:
 			doc, err = sps[1].BuildLogoutResponseDocumentNoSig(saml2.StatusCodeSuccess, "_req-1")
 		}
-		if err != nil || doc == nil || doc.Root() == nil || edge.i != i+1 {
-			orch.Fatal("idgen: edge phase: build %s: %v (blocks consumed %d, expected %d)", kind, err, edge.i, i+1)
+		if err != nil || doc == nil || doc.Root() == nil {
+			orch.Fatal("idgen: edge phase: build %s: %v", kind, err)
 		}
 		id := doc.Root().SelectAttrValue("ID", "")
+		before := edge.i
+		_ = before
 		evs = append(evs, rawEv{kind + "/edge-entropy", 1, 0, id})
-		edgeDraw[id] = edge.blocks[i]
+		if edge.i == i+1 { // the library took exactly this block for this message (anything else has no matching draw)
+			edgeDraw[id] = edge.blocks[i]
+		} else {
+			break
+		}
 	}
 	rand.Reader = rec
 	// fourth phase: the first messages of a process. Each run of cmd/verifcold is a fresh process in which twelve
